@@ -118,6 +118,20 @@ def replayAux : List Call → (owed : Option Nat) → (i loops bytes : Nat) → 
 
 def replay (log : List Call) : Verdict := replayAux log none 0 0 0
 
+/-! ### a whole run: one loop per `flush_evbuf`
+
+The stream file of a thread is written by successive calls of `write_evbuf`
+(the header, then every flushed buffer); each has its own answers. -/
+
+/-- `none`: some loop aborted or did not end with the answers it was given -/
+def writeAll : List (List Ret) → List (List Nat) → (file : List Nat) → Option (List Nat)
+  | _, [], file => some file
+  | [], _ :: _, _ => none
+  | o :: os, b :: bs, file =>
+    match writeEvbuf o file b with
+    | .done f _ => writeAll os bs f
+    | _ => none
+
 /-! ### the variants that seeded changes C01-1 / C01-3 / C10-1 introduced (witnesses only) -/
 
 /-- C01-1: a short write is retried from the start of the buffer -/
